@@ -711,6 +711,13 @@ class Image:
                 )
         assert len(voxels) == self.space_dim
 
+        # Normalize the slices (resolve open-ended, negative and out-of-range bounds) in
+        # the same way numpy does when slicing the array, so that the metadata extracted
+        # below is consistent with the extracted data.
+        voxels = tuple(
+            slice(*sl.indices(self.num_voxels[d])) for d, sl in enumerate(voxels)
+        )
+
         # ! ---- Extract dimensions and new origin from voxels
 
         origin_voxel = [0 if sl.start is None else sl.start for sl in voxels]
